@@ -123,3 +123,125 @@ ASSUMPTIONS = [
     "ideal-cipher model of AES-CBC-MAC / AES-CTR (contracts/crypto_model.py): no MAC collisions (also not on 32 transmitted bits), CTR decryption inverse to encryption under the same key and counter block and unrelated otherwise; 2^-32 / 2^-128 events treated as impossible",
     "KNXIPFrame.to_knx/from_knx are inverse on the wrapped frame (C21)",
 ]
+
+
+# ------------------------------------------------------------------ bounded stand-in: bit-exact equality with an
+# independent implementation of the specification (contracts/ipsecure_reference.py: own AES-128, CBC-MAC, CTR,
+# X25519; PBKDF2 / SHA-256 from hashlib). The real code runs natively; nothing here is counted as proved.
+
+import asyncio  # noqa: E402
+import random as _random  # noqa: E402
+
+from contracts import ipsecure_reference as ref  # noqa: E402
+from pyvc.api import standin  # noqa: E402
+
+# ISO 8859-1: the specification derives keys from the ISO 8859-1 octets of the password
+_PW_ALPHABET = [chr(c) for c in range(0x20, 0x7F)] + [chr(c) for c in range(0xA0, 0x100)]
+
+
+def _reference_cases(tier):
+    n = 24 if tier == "quick" else 400
+    for i in range(n):
+        yield ("handshake", i)
+    for i in range(60 if tier == "quick" else 3000):
+        yield ("wrapper", i)
+    for i in range(20 if tier == "quick" else 1000):
+        yield ("timer_notify", i)
+
+
+def _plain_frame(rng):
+    from xknx.knxip import ConnectionStateRequest, RoutingIndication, SessionStatus, TunnellingAck, TunnellingRequest
+    from xknx.knxip.knxip_enum import SecureSessionStatusCode
+
+    k = rng.randrange(5)
+    if k == 0:
+        body = TunnellingRequest(communication_channel_id=rng.randrange(256), sequence_counter=rng.randrange(256), raw_cemi=rng.randbytes(rng.randrange(2, 70)))
+    elif k == 1:
+        body = RoutingIndication(raw_cemi=rng.randbytes(rng.randrange(2, 70)))
+    elif k == 2:
+        body = ConnectionStateRequest(communication_channel_id=rng.randrange(256))
+    elif k == 3:
+        body = TunnellingAck(communication_channel_id=rng.randrange(256), sequence_counter=rng.randrange(256))
+    else:
+        body = SessionStatus(status=rng.choice(list(SecureSessionStatusCode)))
+    return KNXIPFrame.init_from_body(body)
+
+
+@standin("C28", cases=_reference_cases, kind="enum-native", exhaustive=False, bound="seeded random inputs against contracts/ipsecure_reference.py (own AES-128/CBC-MAC/CTR/X25519, hashlib PBKDF2/SHA-256; primitives self-tested against FIPS-197, SP 800-38A and RFC 7748 vectors on every run): 24 (quick) / 400 (thorough) session handshakes with random key pairs, user ids, session ids and ISO 8859-1 passwords of 1-20 characters (octets of SessionAuthenticate MAC and session key equal, the reference's SessionResponse MAC accepted, every single-bit change of it refused in a sample); 60 / 3000 SecureWrapper frames of 5 body types, lengths 8-76, random key, session id, 48 bit sequence number (wire octets equal; the reference's wrapper unwraps to the frame); 20 / 1000 TimerNotify frames (wire octets equal; the reference's notify verifies, a flipped bit does not)")
+def wire_octets_equal_an_independent_implementation(kind, i):
+    """SecureSession.handshake / encrypt_frame / decrypt_frame and SecureSequenceTimer.send_timer_notify /
+    verify_timer_notify_mac produce and accept exactly the octets of the independent implementation."""
+    from cryptography.hazmat.primitives.asymmetric.x25519 import X25519PrivateKey
+    from xknx.exceptions import IPSecureError
+    from xknx.io.ip_secure import SecureSequenceTimer
+    from xknx.knxip import SessionResponse, TimerNotify
+
+    assert ref.self_test()
+    rng = _random.Random(f"C28-{kind}-{i}")
+    if kind == "handshake":
+        user_id = rng.randrange(1, 128)
+        pw = "".join(rng.choice(_PW_ALPHABET) for _ in range(rng.randrange(1, 21)))
+        dev_pw = "".join(rng.choice(_PW_ALPHABET) for _ in range(rng.randrange(1, 21)))
+        if i % 3 == 0:  # every third case certainly holds octets above 0x7f
+            pw += rng.choice(_PW_ALPHABET[95:])
+            dev_pw = rng.choice(_PW_ALPHABET[95:]) + dev_pw
+        client_priv, server_priv = rng.randbytes(32), rng.randbytes(32)
+        client_pub, server_pub = ref.x25519(client_priv, ref.X25519_BASE), ref.x25519(server_priv, ref.X25519_BASE)
+        sid = rng.randrange(1, 0x10000)
+        s = SecureSession(("127.0.0.1", 3671), user_id=user_id, user_password=pw, device_authentication_password=dev_pw)
+        s._private_key = X25519PrivateKey.from_private_bytes(client_priv)
+        s.public_key = client_pub
+        assert s._user_password == ref.user_password_key(pw), ("user password key", pw)
+        assert s._device_authentication_code == ref.device_authentication_key(dev_pw), ("device authentication key", dev_pw)
+        server_mac = ref.session_response_mac(ref.device_authentication_key(dev_pw), sid, client_pub, server_pub)
+        got = s.handshake(SessionResponse(secure_session_id=sid, ecdh_server_public_key=server_pub, message_authentication_code=server_mac))
+        want = ref.session_authenticate_mac(ref.user_password_key(pw), user_id, client_pub, server_pub)
+        assert got == want, ("SessionAuthenticate MAC", user_id, pw, got.hex(), want.hex())
+        assert s._key == ref.session_key(server_priv, client_pub) == ref.session_key(client_priv, server_pub), "session key"
+        assert s.session_id == sid
+        for bit in rng.sample(range(128), 6):
+            bad = bytearray(server_mac)
+            bad[bit // 8] ^= 1 << (bit % 8)
+            try:
+                s.handshake(SessionResponse(secure_session_id=sid, ecdh_server_public_key=server_pub, message_authentication_code=bytes(bad)))
+            except IPSecureError:
+                continue
+            raise AssertionError(("a SessionResponse with a changed MAC bit was accepted", bit))
+    elif kind == "wrapper":
+        key, sid, seq = rng.randbytes(16), rng.randrange(1, 0x10000), rng.choice((0, 1, 255, 256, rng.randrange(1 << 48), (1 << 48) - 1))
+        s = SecureSession.__new__(SecureSession)
+        s._key, s.session_id, s._sequence_number, s._sequence_number_received = key, sid, seq, -1
+        plain = _plain_frame(rng)
+        octets = plain.to_knx()
+        wire = s.encrypt_frame(plain).to_knx()
+        want = ref.secure_wrapper(key, sid, seq.to_bytes(6, "big"), XKNX_SERIAL_NUMBER, bytes(2), octets)
+        assert wire == want, ("SecureWrapper", wire.hex(), want.hex())
+        serial, tag, seq2 = rng.randbytes(6), rng.randbytes(2), rng.randrange(1 << 48)
+        incoming, rest = KNXIPFrame.from_knx(ref.secure_wrapper(key, sid, seq2.to_bytes(6, "big"), serial, tag, octets))
+        assert rest == b"" and s.decrypt_frame(incoming).to_knx() == octets
+    else:
+        key, serial, tag = rng.randbytes(16), rng.randbytes(6), rng.randbytes(2)
+
+        async def go():
+            sent = []
+            t = SecureSequenceTimer(backbone_key=key, latency_ms=1000, transport_send=lambda frame, addr: sent.append(frame))
+            t._clock_difference = rng.randrange(1 << 47)
+            t.send_timer_notify(message_tag=tag, serial_number=serial)
+            assert len(sent) == 1
+            wire = sent[0].to_knx()
+            want = ref.timer_notify(key, sent[0].body.timer_value, serial, tag)
+            assert wire == want, ("TimerNotify", wire.hex(), want.hex())
+            value = rng.randrange(1 << 48)
+            good, _ = KNXIPFrame.from_knx(ref.timer_notify(key, value, serial, tag))
+            t.verify_timer_notify_mac(good.body)
+            bad = bytearray(ref.timer_notify(key, value, serial, tag))
+            pos = rng.randrange(6, len(bad))
+            bad[pos] ^= 1 << rng.randrange(8)
+            forged, _ = KNXIPFrame.from_knx(bytes(bad))
+            try:
+                t.verify_timer_notify_mac(forged.body)
+            except KNXSecureValidationError:
+                return
+            raise AssertionError(("a TimerNotify with a changed bit verified", pos))
+
+        asyncio.run(go())
